@@ -190,6 +190,19 @@ class ACCEnterDataDirective(ACCStandaloneDirective):
 
         self._sig_set = set()
 
+    def _refine_copy(self, other):
+        '''Refine the object attributes when a shallow copy is not the most
+        appropriate operation during a call to the copy() method.
+
+        :param other: object we are copying from.
+        :type other: :py:class:`psyclone.psyir.node.ACCEnterDataDirective`
+
+        '''
+        super()._refine_copy(other)
+        # The copy needs its own set of signatures, otherwise lowering
+        # either of the two directives would also change the other.
+        self._sig_set = set(other._sig_set)
+
     def gen_code(self, parent):
         '''Generate the elements of the f2pygen AST for this Node in the
         Schedule.
